@@ -432,6 +432,12 @@ impl SvgElement {
         }
 
         let mut p = Position::from(self as &SvgElement);
+        if matches!(self.name.as_str(), "polyline" | "polygon" | "path") {
+            // (placed by its box, like any other shape: see `set_position_attrs()`)
+            if let Ok(Some(local)) = self.bbox_raw() {
+                p.update_size(&Size(local.width(), local.height()));
+            }
+        }
         // The x / y of a `use` move its target, wherever that is drawn: the box of the
         // instance is the target's box moved by them. Positions are worked out for that
         // box, and x / y written back as the move which takes the target's box there.
@@ -874,6 +880,13 @@ impl SvgElement {
                 width = Some(0.);
                 height = Some(0.);
             }
+            // (the box of its points, once they are numbers)
+            "polyline" | "polygon" | "path" => {
+                if let Ok(Some(bb)) = self.bbox_raw() {
+                    width = Some(bb.width());
+                    height = Some(bb.height());
+                }
+            }
             // (circles and ellipses are sized as `Position` accepts them: by either
             // kind of radius, or by width / height)
             "circle" => {
@@ -993,7 +1006,7 @@ impl SvgElement {
         Ok(bbox)
     }
 
-    fn bbox_raw(&self) -> Result<Option<BoundingBox>> {
+    pub(crate) fn bbox_raw(&self) -> Result<Option<BoundingBox>> {
         // For SVG 'Basic shapes' (e.g. rect, circle, ellipse, etc) for x/y and similar:
         // "If the attribute is not specified, the effect is as if a value of "0" were specified."
         // The same is not specified for 'size' attributes (width/height/r etc), so we require
